@@ -54,7 +54,7 @@ func Judge(sc *Scenario, mr *ModelRun, out *Outcome) []Finding {
 		fs = append(fs, Finding{prop, key, d})
 	}
 	kn := func(node int) string { return KindNames[sc.Nodes[node].Kind] }
-	if out.Runaway {
+	if out.Runaway && (mr == nil || !mr.Trunc) {
 		add("C03", "runaway", "the run was still going after %d callbacks; the connection table and the nodes' scripts determine a path of %d callbacks", RunawayLimit, func() int {
 			if mr != nil {
 				return len(mr.Keys)
@@ -243,7 +243,15 @@ func Judge(sc *Scenario, mr *ModelRun, out *Outcome) []Finding {
 			}
 		}
 		// every failing callback must either end the run or be an exec attempt followed by a retry / fallback
+		// (when flows carry retry budgets of their own, a failure may also be followed by the next attempt of an
+		// enclosing flow: then the model's trace decides)
+		if sc.hasFlowRetries() && mr != nil && !mr.Trunc && mr.ErrID != "" && len(keysOfEvents(out.Events)) > len(mr.Keys) {
+			add("C04", "continued-after-failure:flow-retries", "the run fails for good after %d callbacks (%s), yet %d callbacks were made", len(mr.Keys), mr.ErrID, len(keysOfEvents(out.Events)))
+		}
 		for i, e := range out.Events {
+			if sc.hasFlowRetries() {
+				break
+			}
 			if e.Ret == "" || e.Phase == "anomaly" {
 				continue
 			}
@@ -265,6 +273,35 @@ func Judge(sc *Scenario, mr *ModelRun, out *Outcome) []Finding {
 				continue
 			}
 			add("C04", "continued-after-failure:"+e.Phase+":"+kn(e.Node), "callback %s returned error %s but callback %s was still invoked afterwards", e.Key(), e.Ret, nx.Key())
+		}
+	}
+	// model based: "a nil error if and only if every phase on its path succeeded (after retries and fallback)"
+	if mr != nil && !mr.Trunc && sc.Inject.Kind == "" && len(out.Events) > 0 {
+		if mr.ErrID == "" && !out.ErrNil {
+			add("C04", "failed-although-recovered", "every phase on the path succeeds once retries (of nodes and of flows used as nodes) and fallbacks are taken into account, yet the run returned the error %q (matches %q)", out.ErrText, out.ErrID)
+		}
+		if mr.ErrID != "" && out.ErrNil {
+			add("C04", "success-despite-failure", "phase %s fails for good on the path (no retry or fallback recovers it), yet the run reported success (action %q)", mr.ErrID, out.Action)
+		}
+	}
+	// a cancellation that arrives while the run is already failing does not change why it failed: when the last
+	// callback of the run is a failure that nothing could have recovered (prep, post, fallback, or the last permitted
+	// attempt without fallback), the returned error is that callback's error
+	if n := len(out.Events); n > 0 && out.CancelSeq >= 0 && !out.ErrNil && !sc.hasFlowRetries() {
+		var lastEv *Event
+		for i := n - 1; i >= 0; i-- {
+			if out.Events[i].Phase != "anomaly" {
+				lastEv = &out.Events[i]
+				break
+			}
+		}
+		if lastEv != nil && lastEv.Ret != "" {
+			spec := &sc.Nodes[lastEv.Node]
+			terminal := lastEv.Phase == "prep" || lastEv.Phase == "post" || lastEv.Phase == "fallback" ||
+				(lastEv.Phase == "exec" && lastEv.Attempt == EffBudget(spec) && !effFB(spec))
+			if terminal && !idHas(out.ErrID, lastEv.Ret) {
+				add("C04", "error-identity-under-cancel:"+lastEv.Phase+":"+kn(lastEv.Node), "the run ended when callback %s returned error %s (nothing was left to retry); the context had been cancelled in callback #%d, but the returned error %q matches %q instead of that callback's error", lastEv.Key(), lastEv.Ret, out.CancelSeq, out.ErrText, out.ErrID)
+			}
 		}
 	}
 	// --- C03: routing (model based) -----------------------------------------------------
@@ -296,6 +333,25 @@ func Judge(sc *Scenario, mr *ModelRun, out *Outcome) []Finding {
 		}
 	}
 	return fs
+}
+
+func keysOfEvents(evs []Event) []string {
+	var k []string
+	for _, e := range evs {
+		if e.Phase != "anomaly" {
+			k = append(k, e.Key())
+		}
+	}
+	return k
+}
+
+func (sc *Scenario) hasFlowRetries() bool {
+	for i := range sc.Nodes {
+		if sc.Nodes[i].Flow != nil && sc.Nodes[i].Flow.Retries > 1 {
+			return true
+		}
+	}
+	return false
 }
 
 // FullTraceEqual reports whether the observed keys equal the model's.
